@@ -320,10 +320,24 @@ def r14_3(rep: Report, idx: Index) -> None:
     _upd, _resolve = sym_values(max_len=400)
     delta_states: dict[int, list] = {}
 
-    def _on(st, states):
+    def settings(st: ast.stmt) -> list[tuple[str, ast.AST]]:
+        """(emsg field, value) pairs a simple statement sets: fields['k'] = v, a dict display {'k': v} given a
+        name, keywords of an EventMessageBox(..) call"""
+        out: list[tuple[str, ast.AST]] = []
+        if isinstance(st, (ast.If, ast.While, ast.For, ast.Try, ast.With)):
+            return out
         if isinstance(st, ast.Assign) and isinstance(st.targets[0], ast.Subscript) \
-                and isinstance(st.targets[0].slice, ast.Constant) \
-                and st.targets[0].slice.value == 'presentation_time_delta':
+                and isinstance(st.targets[0].slice, ast.Constant) and isinstance(st.targets[0].slice.value, str):
+            out.append((st.targets[0].slice.value, st.value))
+        for x in ast.walk(st):
+            if isinstance(x, ast.Dict) and isinstance(st, ast.Assign) and st.value is x:
+                out += [(k.value, v) for k, v in zip(x.keys, x.values) if isinstance(k, ast.Constant) and isinstance(k.value, str)]
+            if isinstance(x, ast.Call) and (call_name(x) or '').endswith('EventMessageBox'):
+                out += [(k.arg, k.value) for k in x.keywords if k.arg]
+        return out
+
+    def _on(st, states):
+        if any(k == 'presentation_time_delta' for k, _v in settings(st)):
             delta_states.setdefault(id(st), []).extend(states)
     Flow(Disjunctive(PathCond(upd=_upd), cap=256), on_stmt=_on).run(fn, [PathCond.initial()])
     loop_vars = set()
@@ -332,20 +346,29 @@ def r14_3(rep: Report, idx: Index) -> None:
                                             for x in ast.walk(l)):
             tests = l.test.values if isinstance(l.test, ast.BoolOp) and isinstance(l.test.op, ast.And) else [l.test]
             loop_vars |= {norm(t_.left) for t_ in tests if isinstance(t_, ast.Compare)}
-            # a name the loop body gives to the loop variable (an inlined generator's `for a, b in ..`)
-            for x in l.body:
-                if isinstance(x, ast.Assign) and len(x.targets) == 1 and isinstance(x.targets[0], ast.Name) \
-                        and isinstance(x.value, ast.Name) and x.value.id in loop_vars \
-                        and sum(1 for y in ast.walk(fn) if isinstance(y, ast.Name) and y.id == x.targets[0].id
-                                and isinstance(y.ctx, ast.Store)) == 1:
-                    loop_vars.add(x.targets[0].id)
+    # a name the loop body gives to the loop variable (an inlined generator's `for a, b in ..`): every store of it
+    # in the function is such a copy (the normal form may have duplicated the loop into two branches)
+    for x in ast.walk(fn):
+        if isinstance(x, ast.Assign) and len(x.targets) == 1 and isinstance(x.targets[0], ast.Name) \
+                and isinstance(x.value, ast.Name) and x.value.id in loop_vars:
+            nm = x.targets[0].id
+            stores_ = [y for y in ast.walk(fn) if isinstance(y, (ast.Assign, ast.AugAssign, ast.AnnAssign, ast.For))
+                       and any(isinstance(z, ast.Name) and z.id == nm and isinstance(z.ctx, ast.Store)
+                               for t_ in ((y.targets if isinstance(y, ast.Assign) else [y.target])) for z in ast.walk(t_))]
+            if stores_ and all(isinstance(y, ast.Assign) and isinstance(y.value, ast.Name) and y.value.id in loop_vars
+                               for y in stores_):
+                loop_vars.add(nm)
     for n in ast.walk(fn):
         if isinstance(n, ast.If) and re.search(r"version'?\]? == 0|version == 0", norm(n.test)):
             found += 1
+            specific = per_version['0'] ^ per_version['1']
             for branch, ver in ((n.body, '0'), (n.orelse, '1')):
-                keys = [s.targets[0].slice.value for s in branch
-                        if isinstance(s, ast.Assign) and isinstance(s.targets[0], ast.Subscript)
-                        and isinstance(s.targets[0].slice, ast.Constant)]
+                pairs = [(k, v, s) for s in branch for k, v in settings(s)]
+                # keywords of a box built in the branch count only where they are what differs between the versions
+                pairs = [(k, v, s) for k, v, s in pairs if not (isinstance(s, (ast.Assign, ast.Expr, ast.Return)) and any(
+                    isinstance(x, ast.Call) and (call_name(x) or '').endswith('EventMessageBox') and any(kw.value is v for kw in x.keywords)
+                    for x in ast.walk(s))) or k in specific]
+                keys = list(dict.fromkeys(k for k, _v, _s in pairs))
                 for k in keys:
                     if k in per_version[ver]:
                         rep.ok(rid, construct, f'v{ver}:{k}')
@@ -356,13 +379,13 @@ def r14_3(rep: Report, idx: Index) -> None:
                                  f'({sorted(per_version[ver])})', n)
                 # value semantics: v0 is a delta from the segment start, v1 is absolute
                 from ..core import subst_locals
-                for s in branch:
-                    if ver == '0' and isinstance(s, ast.Assign) and isinstance(s.targets[0], ast.Subscript) \
-                            and isinstance(s.targets[0].slice, ast.Constant) \
-                            and s.targets[0].slice.value == 'presentation_time_delta':
-                        val = norm(subst_locals(fn, s.value))
+                seen_delta: set[int] = set()
+                for k_, v_, s in pairs:
+                    if ver == '0' and k_ == 'presentation_time_delta' and id(s) not in seen_delta:
+                        seen_delta.add(id(s))
+                        val = norm(subst_locals(fn, v_))
                         # (event time of the scheduling loop) - (start of the segment in the event timebase)
-                        dv = s.value
+                        dv = v_
                         for _ in range(4):          # a local that only names the difference
                             defs = [a_.value for a_ in ast.walk(fn) if isinstance(a_, ast.Assign)
                                     and isinstance(dv, ast.Name) and norm(a_.targets[0]) == dv.id]
@@ -405,7 +428,7 @@ def r14_4_5(rep: Report) -> None:
         raise AnalysisError('create_emsg_boxes: no scheduling loop')
     loop = loops[0]
     # the event time: `presentation_time`, or the loop variable that `presentation_time` names in the body
-    times = {'presentation_time'} | {x.value.id for lp in loops for x in lp.body
+    times = {'presentation_time', _emsg_roles(fn)[0]} | {x.value.id for lp in loops for x in ast.walk(lp)
                                      if isinstance(x, ast.Assign) and len(x.targets) == 1
                                      and norm(x.targets[0]) == 'presentation_time' and isinstance(x.value, ast.Name)}
     steps = [n for lp in loops for n in ast.walk(lp) if isinstance(n, ast.AugAssign)
@@ -832,7 +855,7 @@ def _emsg_roles(fn: ast.AST) -> tuple[str, str, str | None, str | None]:
     tvar, end = t0.left.id, t0.comparators[0].id
     start = None
     # names the loop body gives to the time variable
-    tnames = {tvar} | {x.targets[0].id for x in lp.body if isinstance(x, ast.Assign) and len(x.targets) == 1
+    tnames = {tvar} | {x.targets[0].id for x in ast.walk(lp) if isinstance(x, ast.Assign) and len(x.targets) == 1
                        and isinstance(x.targets[0], ast.Name) and norm(x.value) == tvar}
     for n in ast.walk(lp):
         if isinstance(n, ast.If) and isinstance(n.test, ast.Compare) and len(n.test.ops) == 1 \
@@ -1096,34 +1119,8 @@ def r14_9(rep: Report) -> None:
         raise AnalysisError(f'create_emsg_boxes: only {len(exits)} early exits found')
     S, I, C = 'self.start', 'self.interval', 'self.count'
     # roles: the window end bounds the scheduling loop (`while t < END`), the window start is what
-    # events before the window are skipped against (`if t < START: ...; continue`)
-    emitting = [l for l in loops if any(isinstance(x, ast.Call) and (call_name(x) or '').endswith('EventMessageBox')
-                                        for x in ast.walk(l))] or loops
-    lp = emitting[0]
-    t0 = lp.test if isinstance(lp.test, ast.Compare) else (
-        lp.test.values[0] if isinstance(lp.test, ast.BoolOp) and isinstance(lp.test.values[0], ast.Compare) else None)
-    if t0 is None or not (len(t0.ops) == 1 and isinstance(t0.ops[0], ast.Lt) and isinstance(t0.left, ast.Name)
-                          and isinstance(t0.comparators[0], ast.Name)):
-        raise AnalysisError('create_emsg_boxes: the emitting loop is not `while t < end`')
-    tvar, END = t0.left.id, t0.comparators[0].id
-    START = None
-    for n in ast.walk(lp):
-        if isinstance(n, ast.If) and isinstance(n.test, ast.Compare) and len(n.test.ops) == 1 \
-                and isinstance(n.test.ops[0], ast.Lt) and norm(n.test.left) == tvar \
-                and isinstance(n.test.comparators[0], ast.Name) \
-                and any(isinstance(x, ast.Continue) for x in n.body):
-            START = n.test.comparators[0].id
-    if START is None:
-        for n in ast.walk(lp):
-            if isinstance(n, ast.Assert) and isinstance(n.test, ast.Compare) and len(n.test.ops) == 1 \
-                    and isinstance(n.test.ops[0], ast.GtE) and norm(n.test.left) == tvar \
-                    and isinstance(n.test.comparators[0], ast.Name):
-                START = n.test.comparators[0].id
-    if START is None:
-        for n in ast.walk(lp):
-            if isinstance(n, ast.BinOp) and isinstance(n.op, ast.Sub) and norm(n.left) == tvar \
-                    and isinstance(n.right, ast.Name):
-                START = n.right.id
+    # events before the window are skipped against (found by role, see _emsg_roles)
+    tvar, END, START, _idv = _emsg_roles(fn)
     if START is None:
         raise AnalysisError('create_emsg_boxes: the skip of events before the window start was not found')
 
@@ -1218,7 +1215,7 @@ def analyse(rep: Report) -> None:
     rep.rule('R14.8', 'event time conversions multiply before dividing', floor=2)
     rep.rule('R14.7', 'in-band events of a bounded schedule have ids below count', floor=1)
     rep.rule('R14.6', 'segment window end: duration of the served fragment, converted as one quantity', floor=2)
-    rep.rule('R14.9', 'early exits of the in-band scheduler imply an empty segment window', floor=3)
+    rep.rule('R14.9', 'early exits of the in-band scheduler imply an empty segment window', floor=1)
     rep.rule('R14.10', 'optional numeric SCTE-35 fields are present unless None (0 is a value)', floor=1)
     rep.rule('R14.12', 'the arms of every alternative in an SCTE-35 structure have the same length modulo 8 bits', floor=3)
     rep.rule('R14.11', 'a default is not overwritten by the target of the loop that searches for a replacement', floor=1)
